@@ -72,8 +72,10 @@ def run(ctx):
                 ok = ('Edge::inputs_' in b and '.insert(' in b.replace('::insert', '.insert')) or 'insert' in b or 'PreallocateSpace' in b or 'Edge::order_only_deps_' in b
                 ctx.check('C10.P1', ok, f.name, 'reported-range:not-where-inserted', f.where(e),
                           'the range %s reports for the follow-up scan begins at the insertion point (`%s`)' % (f.name, b[:90]))
-    pa = prog.fn('ImplicitDepLoader::PreallocateSpace')
-    for e in pa.events('ret'):
+    # (the helper may have been merged into its only caller: then the generic insert-site obligations above cover that caller)
+    pa_l = prog.by_name.get('ImplicitDepLoader::PreallocateSpace') or []
+    pa = pa_l[0] if pa_l else None
+    for e in (pa.events('ret') if pa else []):
         d = dstr(e.get('e'))
         ctx.check('C10.P1', 'Edge::order_only_deps_' in d and 'count' in d, pa.name, 'PreallocateSpace:returned-position', pa.where(e),
                   'PreallocateSpace returns the first of the slots it made, in front of the order-only inputs: `%s`' % d[:90])
@@ -119,9 +121,20 @@ def run(ctx):
                                'ProcessDepfileDeps:dep-skipped')
         every_iteration_passes(ctx, 'C10.P3', pd, l, lambda x: x['k'] == 'call' and x.get('name') == 'Node::AddOutEdge',
                                'AddOutEdge for every parsed dependency', 'ProcessDepfileDeps:out-edge-skipped')
+    npre = 0
     for e in pd.calls('ImplicitDepLoader::PreallocateSpace'):
+        npre += 1
         ctx.check('C10.P3', 'depfile_ins' in dstr(e['args'][1]) and 'size()' in dstr(e['args'][1]), pd.name,
                   'ProcessDepfileDeps:prealloc-count', pd.where(e), 'space is reserved for all parsed entries')
+    if not npre:
+        # reserved in place: the count of the insertion into inputs_ is the size of the parsed list
+        for f2, e, kind, rhs in field_writes(prog, 'Edge::inputs_', [pd]):
+            if kind == 'insert':
+                npre += 1
+                cnt_ = ' '.join(dstr(deep_resolve(pd, a)) for a in e['args'][1:])
+                ctx.check('C10.P3', 'depfile_ins' in cnt_ and 'size()' in cnt_, pd.name, 'ProcessDepfileDeps:prealloc-count', pd.where(e),
+                          'space is reserved for all parsed entries (%s)' % cnt_[:80])
+    ctx.check('C10.P3', npre >= 1, pd.name, 'ProcessDepfileDeps:no-reservation', pd.loc, 'ProcessDepfileDeps reserves the slots it fills')
     # who may touch the parsed lists
     for fld in ('DepfileParser::ins_', 'DepfileParser::outs_'):
         for f, e, kind, rhs in field_writes(prog, fld):
